@@ -389,6 +389,27 @@ def _object_array(a, loop, rest):
     return new
 
 
+_DTYPE = {'float': 'float64', 'int': 'int64', 'bool': 'bool_'}
+
+
+def _canonical_dtypes(fn):
+    """dtype=float / dtype=int / dtype=bool are numpy's float64 / int64 / bool_: one spelling (the module alias of the call is reused)"""
+    n_ = 0
+    for c in ast.walk(fn):
+        if isinstance(c, ast.Call) and isinstance(c.func, ast.Attribute) and isinstance(c.func.value, ast.Name) and c.func.value.id in ('np', 'numpy'):
+            for k in c.keywords:
+                if k.arg == 'dtype' and isinstance(k.value, ast.Name) and k.value.id in _DTYPE:
+                    k.value = ast.copy_location(ast.Attribute(value=ast.Name(id=c.func.value.id, ctx=ast.Load()), attr=_DTYPE[k.value.id], ctx=ast.Load()), k.value)
+                    n_ += 1
+                elif k.arg == 'dtype' and isinstance(k.value, ast.Constant) and k.value.value in ('float', 'float64', 'int', 'int64', 'bool'):
+                    k.value = ast.copy_location(ast.Attribute(value=ast.Name(id=c.func.value.id, ctx=ast.Load()),
+                                                              attr=_DTYPE.get(k.value.value, k.value.value), ctx=ast.Load()), k.value)
+                    n_ += 1
+    if n_:
+        ast.fix_missing_locations(fn)
+    return n_
+
+
 def normalise_function(fn: ast.FunctionDef, is_pure_call=None):
     """in place; returns the number of loops rewritten"""
     if is_pure_call is None:
@@ -449,6 +470,7 @@ def normalise_function(fn: ast.FunctionDef, is_pure_call=None):
             i += 1
         return res
     fn.body = block(fn.body)
+    count[0] += _canonical_dtypes(fn)
     return count[0]
 
 
